@@ -65,6 +65,7 @@ def gen_cases(ctx):
                             else:
                                 wex.append(({5: 0, 6: 1, 15: 2, 16: 3}[p[0]], rg[0], r.choice([2, 4, 6])))
                     units.append((uid, r.choice([1, 3, 5]), r.randrange(100), tuple(rex), tuple(wex), (), (), (), ()))
+                units = list(srv.share_some(r, tuple(units), 0.3))
                 frames = [(r.randrange(65536) if link == 'tcp' else None, dest, p) for p in pdus]
                 if ids:
                     sent = r.choice([x for x in ids if not (link == 'rtu' and x == 0)] or [None])
@@ -117,5 +118,5 @@ def run(ctx):
                       'non-trivial = contains at least one valid request; distinct by value', st)
     if not ctx.replay:
         ok = st['dest-bytes-covered:rtu'] == 256 and st['dest-bytes-covered:tcp'] == 256 and st['frames:broadcast'] >= 16 and st['broadcast-write-calls'] >= 3 \
-            and cl.get('sessions:units=0', 0) >= 3 and cl.get('sessions:units=3', 0) >= 3
+            and cl.get('sessions:units=0', 0) >= 3 and cl.get('sessions:units=3', 0) >= 3 and cl.get('sessions:with-shared-handler-object', 0) >= 10
         ctx.oblige('generator-reaches-expected-classes', ok, str(st))
